@@ -129,6 +129,10 @@ def models(tier, seed):
                     {"name": "Wr", "methods": [M("poke", "mut", ("u32", "bool")), M("emit", "ref", ("cb",), "bool"),
                                                 M("outp", "mut", ("pp", "u32"), "u32"), M("next", "ref", ("u8", "cpp"), "bool")]}],
          "objects": [("Rd", "Box", ""), ("Rd", "Ref", ""), ("Rd", "Mut", "Arc"), ("Wr", "Box", "Arc"), ("Wr", "Mut", "")], "groups": []},
+        {"id": "prefix_equals_group_name", "prefix": "pack",
+         "traits": [{"name": "Namer", "methods": [M("get", "ref", (), "u32"), M("label", "ref", ("u8",), "u32")]},
+                    {"name": "Store", "methods": [M("put", "mut", ("u32",)), M("size", "ref", (), "u64")]}],
+         "objects": [("Namer", "Box", "Arc")], "groups": [("Pack", ["Namer", "Store"], "Box", "Arc")]},
         {"id": "group_named_container", "prefix": None,
          "traits": [{"name": "Base", "methods": [M("id", "ref", (), "u32"), M("bump", "mut", ("u32",), "u32")]},
                     {"name": "Extra", "methods": [M("more", "ref", ("u64", "u8"), "u64")]}],
@@ -334,8 +338,10 @@ def find_wrapper(ws, ty, trait, method, model, all_types, sig=None):
         if toks[-1] != method:
             continue
         ok = True
-        for tk in toks[:-1]:
-            if tk == (model.get("prefix") or "\0"):
+        for ti_, tk in enumerate(toks[:-1]):
+            # the configured function prefix is the FIRST token only: a later equal token is a type name (a group may be
+            # called like the prefix)
+            if ti_ == 0 and tk == (model.get("prefix") or "\0"):
                 continue
             if tk in ("box", "mut", "ref"):
                 ok &= tk == ty["inner"].lower()
